@@ -1,28 +1,35 @@
 /-
 Line-protocol driver for the C08 models.  Parsing / printing glue only; the state evolves through
-`build`, `setTarget`, `history`, `hBuild`, `hRun`, `absObj`, `gpa` of `Core/C08Retarget.lean`, instantiated with
-the table / symbolic fits of `Core/C08Table.lean`.
+`build`, `setTarget`, `history`, `hBuild`, `aStep` (`hStep`, `hWrite`), `absObj`, `gpa`, `refGpa` of
+`Core/C08Retarget.lean` / `Core/C08Heap.lean`, instantiated with the table / symbolic fits of `Core/C08Table.lean`.
 
 ops:
-  hist <tree> <cls> <rot> <mir> <kernel> <minSV> <nsets> set… <nops> op…
+  hist <tree> <cls> <rot> <mir> <kernel> <minSV> <nvals> val… <narr> valId… <npc> arr… <nops> op…
        tree := fixed | coded           cls := affine | similarity | rotation | translation | uniformScale | tps | pwa
-       set  := id n d  transl scale rot(mirror=0) rot(mirror=1) aff proc00 proc01 proc10 proc11
-               (the reference fits from set 0 to this set; each matrix / vector a list `k x₁ … x_k`, row major;
-                proc<rotation><allow_mirror>)
-       op   := S i r      objs[i].set_target(set r)
-             | C i        objs.append(objs[i].copy())
-       set 0 is the source, set 1 the first target.  `fixed` runs the heap model, `coded` the value model
-       (no copies).
-    → err <kind>   |   ok <verdict per S op: a | dims | points | x> ; <object> ; <object> …
-       object := src tgt rot mir kernel minSV state      (absent attribute: n)
+       val  := id n d  transl scale rot(mirror=0) rot(mirror=1) aff proc00 proc01 proc10 proc11
+               a coordinate *value* (what an ndarray of points can hold) with the reference fits from the source
+               value to it; each matrix / vector a list `k x₁ … x_k`, row major; proc<rotation><allow_mirror>
+       narr valId…   the ndarrays of coordinates the caller owns and the value each holds initially
+       npc arr…      the caller's PointCloud objects and the array each refers to (two may share one)
+       op   := S i r        objs[i].set_target(pcs[r])
+             | C i          objs.append(objs[i].copy())
+             | E i k mat    k := F | B | A : objs[i].from_vector_inplace / compose_before_inplace / compose_after_inplace,
+                            mat = the (d+1)² entries of the matrix the vector stands for / of the operand
+             | W r valId    pcs[r].points[...] = value valId   (the caller's in-place write)
+       PointCloud 0 is the source, PointCloud 1 the first target.  `fixed` runs the heap model, `coded` the value
+       model (S ops on object 0 only).
+    → err <kind>   |   ok <verdict per S op: a | dims | points | x> ; <object> ; <object> … ; A <value id per array>
+       object := srcPc tgtPc srcVal tgtVal rot mir kernel minSV state      (absent attribute: n)
        state  := hom e₀₀ e₀₁ … (row major, (d+1)²)  |  tps <l> <coef>  |  pwa <tv>
   gpa <tree> <maxIter> <nsrc> <n> <d> <mirror> <fixedTarget> <flags>
        sources are 0..nsrc-1, target number k is 1000+k (a fixed target is 1000); flags[k] = the k-th
        convergence test succeeds
-    → err <kind>   |   ok nIterations converged target ; <src tgt rot mir fit:t fit:s fit:r fit:m> …
+    → err <kind>   |   ok nIterations converged target refTarget refIterations refConverged ; <src tgt rot mir fit:t fit:s fit:r fit:m> …
+       (ref… = `refGpa`, the iteration with fresh alignments only; theorem `gpa_eq_fresh_iteration`)
 -/
 import MenpoModel.Core.Codec
 import MenpoModel.Core.C08Retarget
+import MenpoModel.Core.C08Heap
 import MenpoModel.Core.C08Table
 
 namespace MenpoModel.Drive.C08
@@ -59,11 +66,22 @@ def pSet : P (DP × Fits) := do
       proc := fun r m => match r, m with
         | false, false => p00 | false, true => p01 | true, false => p10 | true, true => p11 })
 
-def pOp : P Op := do
+def pKind : P EditKind := do
   let t ← tok
   match t with
-  | "S" => do let i ← pNat; let r ← pNat; pure (.setTarget i r)
-  | "C" => do let i ← pNat; pure (.copy i)
+  | "F" => pure .fromVector
+  | "B" => pure .composeBefore
+  | "A" => pure .composeAfter
+  | _ => failure
+
+/-- `w` = side of the homogeneous matrices; `vals` = the value table -/
+def pAct (w : Nat) (vals : Nat → DP) : P (Act DP) := do
+  let t ← tok
+  match t with
+  | "S" => do let i ← pNat; let r ← pNat; pure (.op (.setTarget i r))
+  | "C" => do let i ← pNat; pure (.op (.copy i))
+  | "E" => do let i ← pNat; let k ← pKind; let m ← pList pRat; pure (.op (.edit i k (matOf w m)))
+  | "W" => do let r ← pNat; let v ← pNat; pure (.write r (vals v))
   | _ => failure
 
 def fmtErr : Err → String
@@ -72,56 +90,70 @@ def fmtErr : Err → String
 def fmtOB : Option Bool → String
   | none => "n" | some true => "1" | some false => "0"
 
-def fmtObj (o : Obj DP String) : String :=
-  let st := match o.state with
-    | .hom h => "hom " ++ fmtMat (entries o.source.d h)
-    | .tps l c => s!"tps {l} {c}"
-    | .pwa tv => s!"pwa {tv}"
+def fmtState (o : Obj DP String) : String :=
+  match o.state with
+  | .hom h => "hom " ++ fmtMat (entries o.source.d h)
+  | .tps l c => s!"tps {l} {c}"
+  | .pwa tv => s!"pwa {tv}"
+
+def fmtObj (srcPc tgtPc : Nat) (o : Obj DP String) : String :=
   let ker := match o.kernel with | none => "n" | some k => toString k
   let sv := match o.minSV with | none => "n" | some r => fmtRat r
-  s!"{o.source.id} {o.target.id} {fmtOB o.rotation} {fmtOB o.allowMirror} {ker} {sv} {st}"
+  s!"{srcPc} {tgtPc} {o.source.id} {o.target.id} {fmtOB o.rotation} {fmtOB o.allowMirror} {ker} {sv} {fmtState o}"
 
-/-- heap run with the verdict of every `set_target` recorded (reporting only: the state moves by `hStep`) -/
-def runHeap (e : Ext DP String) : Heap DP × List (HObj String) → List Op → List String × (Heap DP × List (HObj String))
+/-- heap run with the verdict of every `set_target` recorded (reporting only: the state moves by `aStep`) -/
+def runHeap (e : Ext DP String) : Heap DP × List (HObj String) → List (Act DP) → List String × (Heap DP × List (HObj String))
   | st, [] => ([], st)
-  | st, op :: ops =>
-    let v : List String := match op with
-      | .setTarget i r => match st.2[i]? with
+  | st, a :: as =>
+    let v : List String := match a with
+      | .op (.setTarget i r) => match st.2[i]? with
         | some o => match verifyTarget e (absObj st.1 o) (st.1.pts r) with
           | .ok _ => ["a"]
           | .error err => [fmtErr err]
         | none => ["x"]
-      | .copy _ => []
-    let (vs, fin) := runHeap e (hStep e st op) ops
+      | _ => []
+    let (vs, fin) := runHeap e (aStep e st a) as
     (v ++ vs, fin)
 
 def histOp : P String := do
   let tree ← pTree; let cls ← pCls
   let rot ← pBool; let mir ← pBool; let ker ← pNat; let sv ← pRat
   let sets ← pList pSet
-  let ops ← pList pOp
+  let arrs ← pList pNat
+  let pcs ← pList pNat
   let tbl : Nat → Fits := fun id => match sets.find? (fun s => s.1.id == id) with
     | some s => s.2
     | none => {}
+  let vals : Nat → DP := fun id => match sets.find? (fun s => s.1.id == id) with
+    | some s => s.1
+    | none => ⟨9999, 0, 0⟩
   let e := tableExt tbl
   let opts : Opts := { rotation := rot, allowMirror := mir, kernel := ker, minSV := sv }
-  let pts : Nat → DP := fun r => match sets[r]? with | some s => s.1 | none => ⟨9999, 0, 0⟩
+  let hp : Heap DP := { mats := fun _ => eye, next := 0,
+                        arr := fun k => match arrs[k]? with | some v => vals v | none => ⟨9999, 0, 0⟩,
+                        nextArr := arrs.length,
+                        pc := fun r => match pcs[r]? with | some a => a | none => 0,
+                        nextPc := pcs.length }
+  let acts ← pList (pAct ((hp.pts 0).d + 1) vals)
   if tree == fixed then
-    let hp : Heap DP := { mats := fun _ => eye, next := 0, pts := pts }
     match hBuild tree e cls opts hp 0 1 with
     | .error err => pure ("err " ++ fmtErr err)
     | .ok (hp', ho) =>
-      let (vs, fin) := runHeap e (hp', [ho]) ops
-      pure ("ok " ++ " ".intercalate vs ++ " ; " ++ " ; ".intercalate (fin.2.map fun o => fmtObj (absObj fin.1 o)))
+      let (vs, fin) := runHeap e (hp', [ho]) acts
+      let arrIds := (List.range fin.1.nextArr).map fun k => toString (fin.1.arr k).id
+      pure ("ok " ++ " ".intercalate vs ++ " ; " ++
+            " ; ".intercalate (fin.2.map fun o => fmtObj o.source o.target (absObj fin.1 o)) ++
+            " ; A " ++ " ".intercalate arrIds)
   else
-    match build tree e cls opts (pts 0) (pts 1) with
+    match build tree e cls opts (hp.pts 0) (hp.pts 1) with
     | .error err => pure ("err " ++ fmtErr err)
     | .ok o =>
-      let ts ← (ops.mapM fun op => match op with
-        | .setTarget 0 r => some (pts r)
+      let ts ← (acts.mapM fun a => match a with
+        | .op (.setTarget 0 r) => some (hp.pts r)
         | _ => none : Option (List DP))
       let vs := (verdicts e o ts).map fun v => match v with | none => "a" | some err => fmtErr err
-      pure ("ok " ++ " ".intercalate vs ++ " ; " ++ fmtObj (history e o ts))
+      let fin := history e o ts
+      pure ("ok " ++ " ".intercalate vs ++ " ; " ++ fmtObj 0 0 fin ++ " ; A")
 
 def gpaOp : P String := do
   let tree ← pTree
@@ -137,7 +169,12 @@ def gpaOp : P String := do
         | .hom h => s!"{fmtRat (h 0 0)} {fmtRat (h 0 1)} {fmtRat (h 1 0)} {fmtRat (h 1 1)}"
         | _ => "?"
       s!"{o.source} {o.target} {fmtOB o.rotation} {fmtOB o.allowMirror} {code}"
-    pure (s!"ok {g.nIterations} {if g.converged then 1 else 0} {g.target} ; " ++
+    let ref := match refGpa tree e (symGpa flags) { rotation := true, allowMirror := mirror }
+                  (if fixedT then 1000 else (symGpa flags).meanOf (List.range nsrc)) (List.range nsrc) maxIter
+                  (if fixedT then 1000 else (symGpa flags).meanOf (List.range nsrc)) 1 with
+      | .ok (t, n, c) => s!"{t} {n} {if c then 1 else 0}"
+      | .error err => "err-" ++ fmtErr err
+    pure (s!"ok {g.nIterations} {if g.converged then 1 else 0} {g.target} {ref} ; " ++
           " ; ".intercalate (g.transforms.map one))
 
 def step (toks : List String) : String :=
